@@ -8,7 +8,7 @@
    `count_at s c i log` is the number of times message i was handed to the
    subscribers of side s on channel c. *)
 From Coq Require Import List Bool Arith PeanoNat.
-From RP Require Import Fwd.Model Fwd.Oracle Fwd.Proofs.
+From RP Require Import Fwd.Model Fwd.Oracle Fwd.Proofs Fwd.Life Fwd.LifeOracle Fwd.LifeProofs.
 Import ListNotations.
 
 (* exact delivery counts: for every number of pilots, every batch of posts
@@ -184,4 +184,101 @@ Example C16_nonvacuous :
        mkev 2 State   0 (Some 1) (Some false);
        mkev 1 Control 1 (Some 0) (Some false);
        mkev 2 Control 1 (Some 0) (Some false) ], 9, true, 0).
+Proof. vm_compute. reflexivity. Qed.
+
+(* ==== the life cycle of the forwarding fabric (RP.Fwd.Life) ====================
+   A history `ops` is any sequence of  Connect s  (side s builds its session:
+   the client registers the session id at the proxy, a pilot looks it up; both
+   crosswire),  Close s  (Session.close() and the end of that side's process)
+   and  Round posts sched  (live sides publish, the network runs until silent).
+   `rounds_from world0 ops` lists the rounds with the situation they were
+   played in: (live sides, registered, id of the first post, posts). *)
+
+(* In whatever order sides have connected and closed before and after: a
+   message published on a live side in a round played while the client session
+   is up has exactly the prescribed number of deliveries on every side that is
+   live in that round (1 on its own side; on every other live side 1 if it is
+   forward-flagged without a foreign marker, else 0; 0 on the other channel) --
+   counted in the final log of the whole history *)
+Theorem C16_life_delivery_counts :
+  forall (ops : list lop) (live : list nat) (reg : bool) (k : nat) (posts : list post),
+    In (live, reg, k, posts) (rounds_from world0 ops) ->
+    forall (j s0 : nat) (c0 : chan) (src : source), nth_error posts j = Some (s0, c0, src) ->
+    mem 0 live = true -> mem s0 live = true ->
+    forall (s : nat) (c : chan), mem s live = true ->
+      count_at s c (k + j) (log (w_net (life_run ops world0))) = expected (k + j) (s0, c0, src) s c.
+Proof. exact life_counts0. Qed.
+Print Assumptions C16_life_delivery_counts.
+
+(* the closing of a pilot's session changes nothing for the others: after any
+   history `pre`, pilot k closes; the messages of the next round still have the
+   prescribed counts on all remaining sides *)
+Theorem C16_pilot_close_changes_nothing :
+  forall (pre : list lop) (k : nat) (posts : list post) (sched : list nat) (rest : list lop)
+         (j s0 : nat) (c0 : chan) (src : source) (s : nat) (c : chan),
+    k <> 0 ->
+    let w := life_run pre world0 in
+    nth_error posts j = Some (s0, c0, src) ->
+    mem 0 (w_live w) = true -> mem s0 (w_live w) = true -> s0 <> k ->
+    mem s (w_live w) = true -> s <> k ->
+    count_at s c (w_next w + j)
+      (log (w_net (life_run (pre ++ Close k :: Round posts sched :: rest) world0)))
+    = expected (w_next w + j) (s0, c0, src) s c.
+Proof. exact pilot_close_changes_nothing. Qed.
+Print Assumptions C16_pilot_close_changes_nothing.
+
+(* once the client session is gone (or before it exists) nothing crosses: a
+   message is delivered on its own side only, once *)
+Theorem C16_life_without_client_local :
+  forall (ops : list lop) (live : list nat) (reg : bool) (k : nat) (posts : list post),
+    In (live, reg, k, posts) (rounds_from world0 ops) ->
+    forall (j s0 : nat) (c0 : chan) (src : source), nth_error posts j = Some (s0, c0, src) ->
+    mem 0 live = false -> mem s0 live = true ->
+    forall (s : nat) (c : chan),
+      count_at s c (k + j) (log (w_net (life_run ops world0)))
+      = if Nat.eqb s0 s && chan_eqb c0 c then 1 else 0.
+Proof. exact life_counts_down0. Qed.
+Print Assumptions C16_life_without_client_local.
+
+(* every history ends silent, within n_live + 1 publications per post *)
+Theorem C16_life_no_circulation :
+  forall (ops : list lop),
+    pending (w_net (life_run ops world0)) = [] /\
+    npub (w_net (life_run ops world0)) <= pub_budget (rounds_from world0 ops).
+Proof. exact life_quiet0. Qed.
+Print Assumptions C16_life_no_circulation.
+
+(* only the owner of the session id (the client) ever asks the proxy to
+   unregister it *)
+Theorem C16_only_owner_unregisters :
+  forall (ops : list lop), ok_only_owner_unregisters (w_reqs (life_run ops world0)) = true.
+Proof. exact model_only_owner_unregisters. Qed.
+Print Assumptions C16_only_owner_unregisters.
+
+(* the model satisfies the life-cycle oracle clauses evaluated on implementation traces *)
+Theorem C16_life_model_satisfies_oracle :
+  forall (ops : list lop),
+    let w := life_run ops world0 in
+    ok_life_exactly_once ops (log (w_net w)) = true /\ ok_life_not_back ops (log (w_net w)) = true /\
+    ok_life_stays_local ops (log (w_net w)) = true /\
+    ok_life_no_circulation ops (npub (w_net w)) (quiescent (w_net w)) = true /\
+    ok_only_owner_unregisters (w_reqs w) = true.
+Proof. exact model_life_all_clauses. Qed.
+Print Assumptions C16_life_model_satisfies_oracle.
+
+(* non-vacuity: client and two pilots connect, pilot 1 finishes and closes, the
+   client and pilot 2 go on talking, then the client closes *)
+Example C16_life_nonvacuous :
+  life_obs [ Connect 0; Connect 1; Connect 2;
+             Round [(0, Control, Raw None (Some true))] [];
+             Close 1;
+             Round [(0, Control, Raw None (Some true)); (2, State, Advance None)] [1];
+             Close 0;
+             Round [(2, State, Advance None)] [] ]
+  = ([ mkev 0 Control 0 None (Some true); mkev 1 Control 0 (Some 0) (Some false);
+       mkev 2 Control 0 (Some 0) (Some false);
+       mkev 2 State 2 None (Some true); mkev 0 Control 1 None (Some true);
+       mkev 0 State 2 (Some 2) (Some false); mkev 2 Control 1 (Some 0) (Some false);
+       mkev 2 State 3 None (Some true) ],
+     11, true, 0, [(0, Register); (1, Lookup); (2, Lookup); (0, Unregister)], 0).
 Proof. vm_compute. reflexivity. Qed.
